@@ -152,6 +152,7 @@ func execMaxsat(env Env, t *world.TaskSpec, out *Outcome) {
 	case "wcnf":
 		rd := NewSimReader(t.Text, t.Chunks, t.EOFWith)
 		s, err := maxsat.ParseWCNF(rd)
+		out.readerFaults(rd)
 		if err != nil {
 			out.fail("C04", "wcnf-parse-error", "well-formed WCNF text rejected: %v; text=%q", err, t.Text)
 			return
@@ -162,6 +163,7 @@ func execMaxsat(env Env, t *world.TaskSpec, out *Outcome) {
 			ch := make(chan solver.Result, t.Cap)
 			var st Stream[solver.Result]
 			done := make(chan struct{})
+			out.chanFault(t.Cap, t.Delays, false)
 			Consume(env, "result-consumer", ch, t.Delays, &st, done)
 			res = s.Optimal(ch, nil)
 			closed := DrainAtReturn(ch, &st)
